@@ -41,7 +41,7 @@ def introduced_identifiers():
         ids_out = set(re.findall(r"[A-Za-z_][A-Za-z0-9_]*", r["out"]))
         ids_in = set(re.findall(r"[A-Za-z_][A-Za-z0-9_]*", q["item"] + " " + q["attr"]))
         out |= (ids_out - ids_in)
-    return sorted(x for x in out if x not in KEYWORDS and not x.startswith("__") and x not in DRIVER_NAMES and len(x) < 20)
+    return sorted(x for x in out if x not in KEYWORDS and not x.startswith("__") and x.strip("_") and x not in DRIVER_NAMES and len(x) < 20)
 
 
 def names_in(src):
@@ -113,16 +113,11 @@ ITEM_LINE = re.compile(r"^\s*(#\[::derive_ex::derive_ex\(|#\[derive\(::derive_ex
 
 
 def wrap_item_line(src, mode):
-    lines = src.split("\n")
-    out = []
-    for ln in lines:
-        if ITEM_LINE.match(ln):
-            pre = "use crate::hostile::*; use super::*;" if mode == "shadow_glob" else "use super::*; " + LOCAL_DEFS
-            out.append("    pub mod def { #![allow(unused_imports, dead_code)] %s %s }" % (pre, ln.strip()))
-            out.append("    pub use self::def::*;")
-        else:
-            out.append(ln)
-    return "\n".join(out)
+    """shadow prelude / core names in the scope of the derive_ex item: a glob import (shadows the prelude) or local items.
+    The drivers use absolute paths for everything the hostile module redefines."""
+    first, rest = src.split("\n", 1)
+    add = "    use crate::hostile::*;" if mode == "shadow_glob" else "    " + LOCAL_DEFS
+    return first + "\n" + add + "\n" + rest
 
 
 class Proxy:
@@ -194,6 +189,7 @@ def c13(tier):
     ck.notes["example_maps"] = maps_used
     # no_std: metadata-only build of core-only programs
     no_std_programs(ck, tier, rnd)
+    const_param_grid(ck, tier)
     ck.cov["evaluations"] = ck.cov["traces_validated_against_impl"]
     ck.cov["distinct_nontrivial"] = len(ck.notes.get("events_per_family", {}))
     ck.cov["rule"] = ("every run-time family (clone, struct operators, impl operators, debug, default, deref, comparison sample) re-run under 4 renaming schemes "
@@ -218,7 +214,7 @@ def no_std_programs(ck, tier, rnd):
         for entry in ("attr", "derive"):
             progs.append("#![no_std]\n#![allow(dead_code)]\n%s %s\n" % (rf.derive_head(traits, entry), sh))
     progs.append("#![no_std]\n#![allow(dead_code)]\n#[::derive_ex::derive_ex(Add, SubAssign, Neg, Deref, DerefMut)] pub struct T(pub i32);\n")
-    progs.append("#![no_std]\n#![allow(dead_code)]\n#[::derive_ex::derive_ex(Ord, PartialOrd, Eq, PartialEq, Hash)] pub struct T { #[ord(key = $ / 2)] pub a: u8, #[ord(by = |a, b| a.cmp(b))] pub b: u8, #[eq(ignore)] #[ord(ignore)] pub c: u8 }\n")
+    progs.append("#![no_std]\n#![allow(dead_code)]\n#[::derive_ex::derive_ex(Ord, PartialOrd, Eq, PartialEq, Hash)] pub struct T { #[ord(key = $ / 2)] pub a: u8, #[ord(by = |a, b| a.cmp(b))] #[hash(key = $)] pub b: u8, #[eq(ignore)] #[ord(ignore)] pub c: u8 }\n")
     wd = os.path.join(dx.WORK, "c13ns-%d" % os.getpid())
 
     def comp(ix):
@@ -234,3 +230,54 @@ def no_std_programs(ck, tier, rnd):
     for i in bad:
         ck.violation({"family": "no_std", "scheme": "no_std", "codes": ",".join(sorted(set(d.get("code") or "?" for d in res[i][1])))},
                      {"what": "does not compile under #![no_std]", "source": progs[i], "diagnostics": res[i][1]})
+
+
+CONST_NAMES = ["o", "this", "other", "state", "f", "rhs", "source", "lhs", "to_index", "l_0", "r_0", "_0", "_self_0", "_other_0", "_this_0", "hash", "eq", "cmp",
+               "partial_cmp", "value", "N", "T", "H"]
+CONST_TRAITS = ["Clone", "Copy, Clone", "Debug", "Default", "PartialEq", "Eq, PartialEq", "PartialOrd, PartialEq", "Ord, PartialOrd, Eq, PartialEq", "Hash",
+                "Add", "SubAssign", "Neg", "Deref", "DerefMut, Deref"]
+
+
+def const_param_grid(ck, tier):
+    """a const generic parameter named like an identifier the generator uses for its own locals (the property names them)"""
+    progs, meta = [], []
+    for nm in CONST_NAMES:
+        for tr in CONST_TRAITS:
+            for kind in ("struct", "enum"):
+                first = tr.split(",")[0]
+                if kind == "enum" and first in ("Add", "SubAssign", "Neg", "Deref", "DerefMut"):
+                    continue
+                if first in ("Deref", "DerefMut"):
+                    item = "pub struct X<const %s: usize>(pub [i8; %s]);" % (nm, nm)
+                elif kind == "struct":
+                    item = "pub struct X<const %s: usize>(pub [i8; %s], pub i8);" % (nm, nm)
+                else:
+                    item = "pub enum X<const %s: usize> { A([i8; %s], i8), %sB }" % (nm, nm, "#[default] " if first == "Default" else "")
+                if first in ("Add", "SubAssign", "Neg"):
+                    item = "pub struct X<const %s: usize>(pub W<%s>);\n#[derive(Clone, Copy)] pub struct W<const K: usize>;\n" % (nm, nm) + \
+                        "".join("impl<const K: usize> ::core::ops::%s for %sW<K> { type Output = W<K>; fn %s(self%s) -> W<K> { W } }\n" % (t, l, f, a)
+                                for (t, l, f, a) in [("Add<W<K>>", "", "add", ", _: W<K>"), ("Add<&W<K>>", "", "add", ", _: &W<K>"), ("Add<W<K>>", "&", "add", ", _: W<K>"),
+                                                     ("Add<&W<K>>", "&", "add", ", _: &W<K>"), ("Neg", "", "neg", ""), ("Neg", "&", "neg", "")]) + \
+                        "impl<const K: usize> ::core::ops::SubAssign<W<K>> for W<K> { fn sub_assign(&mut self, _: W<K>) {} }\nimpl<const K: usize> ::core::ops::SubAssign<&W<K>> for W<K> { fn sub_assign(&mut self, _: &W<K>) {} }\n"
+                if first == "Default" and kind == "struct":
+                    item = "pub struct X<const %s: usize>(pub ::core::marker::PhantomData<[i8; %s]>, pub i8);" % (nm, nm)
+                head, rest = (item.split("\n", 1) + [""])[:2]
+                progs.append("#![allow(dead_code, non_upper_case_globals)]\n#[::derive_ex::derive_ex(%s)] %s\n%s" % (tr, head, rest))
+                meta.append({"name": nm, "trait": tr.replace(" ", ""), "item": kind})
+    wd = os.path.join(dx.WORK, "c13cp-%d" % os.getpid())
+
+    def comp(ix):
+        i, src = ix
+        ok, diags = dx.check_only("k%d" % i, src, wd)
+        return ok, dx.diag_summary(diags)[:2]
+    res = dx.pmap(comp, list(enumerate(progs)))
+    import shutil
+    shutil.rmtree(wd, ignore_errors=True)
+    events = [{"ev": "compiles", "rustc_ok": ok} for ok, _ in res]
+    n, bad, jst = dx.tlc_judge("Trace_Bounds", "Trace_Bounds.cfg", events, "c13cp")
+    ck.add_judge(n, jst)
+    for i in bad:
+        m = meta[i]
+        ck.violation({"family": "const_param", "scheme": "locals", "name": m["name"], "trait": m["trait"], "item": m["item"]},
+                     {"what": "a const parameter with this name collides with a local of the generated code", "source": progs[i], "diagnostics": res[i][1]})
+    ck.notes["const_param_grid"] = {"programs": len(progs), "failing": len(bad)}
